@@ -166,6 +166,25 @@ func main() {
 		collEx = collExW
 	}
 
+	// ---------- aliased operands (shared storage) ----------
+	var as aliasStats
+	run("aliased sub-slices (core + wide names)", func() (int64, bool) {
+		_, ok := aliasedPhase(col, &as, 1, uCore, deadline)
+		_, ok2 := aliasedPhase(col, &as, 2, uWide, deadline)
+		return as.namePairs.Load(), ok && ok2
+	})
+	run("aliased component values", func() (int64, bool) {
+		_, ok := enum.Range(int64(len(compSet)), deadline, func(i int64) {
+			c := compSet[i]
+			other := uint64(8)
+			if c.typ == 8 {
+				other = 253
+			}
+			aliasedComp(col, &as, 3<<38|i, c, other)
+		})
+		return as.compPairs.Load(), ok
+	})
+
 	collM := -1
 	if thorough {
 		uMid := allSeqs(c40, 3)
@@ -178,6 +197,11 @@ func main() {
 			return st.pairs.Load() - before, ok && ok2
 		})
 		collM, _ = M.hashCollisions()
+		run("aliased sub-slices (40 comps, len<=3)", func() (int64, bool) {
+			before := as.namePairs.Load()
+			_, ok := aliasedPhase(col, &as, 4, uMid, deadline)
+			return as.namePairs.Load() - before, ok
+		})
 	}
 
 	// ---------- URI round trip ----------
@@ -317,7 +341,7 @@ func main() {
 
 	counts := col.flush(rep)
 	distinctPairs := st.distinct.Load()
-	evals := st.evals.Load() + compPairs.Load()*6 + tripleCount + us.names.Load()*2 + us.comps.Load()*4 + us.uncovered.Load() + ps.calls.Load()
+	evals := as.namePairs.Load()*9 + as.compPairs.Load()*8 + st.evals.Load() + compPairs.Load()*6 + tripleCount + us.names.Load()*2 + us.comps.Load()*4 + us.uncovered.Load() + ps.calls.Load()
 	cov := report.Coverage{
 		"evaluations":                    evals,
 		"distinct_nontrivial":            distinctPairs + distinctURI.Load() + distinctStr,
@@ -330,6 +354,7 @@ func main() {
 		"name_pairs":                     st.pairs.Load(),
 		"component_pairs":                compPairs.Load(),
 		"triples":                        tripleCount,
+		"aliased_operand_pairs":          map[string]int64{"name_pairs": as.namePairs.Load(), "component_pairs": as.compPairs.Load(), "equal_true": as.equalTrue.Load(), "isprefix_true": as.prefixTrue.Load()},
 		"compare_outcomes":               map[string]int64{"less": st.cmpLt.Load(), "equal": st.cmpEq.Load(), "greater": st.cmpGt.Load()},
 		"pairs_decided_by":               map[string]int64{"type": st.byType.Load(), "length": st.byLen.Load(), "value": st.byVal.Load(), "prefix": st.byPrefix.Load()},
 		"isprefix_true":                  st.prefixTrue.Load(),
@@ -351,6 +376,7 @@ func main() {
 		"the URI clause demands exactly NameFromStr(n.String()) == n (and the component-level equivalents) for covered names; it does not demand conformance with the NDN URI scheme's '...' padding convention",
 		"transitivity is checked on the matrices of real Compare/Equal/IsPrefix results of the triple universe",
 		"a hash collision between distinct names is evidence, not a violation",
+		"aliased operands: every pair of sub-slices n[i:j] of one name (and of a shallow copy sharing the value arrays) and every pair of components whose values are sub-slices of one byte array are evaluated with the same laws; names are never mutated while shared",
 	})
 }
 
@@ -377,40 +403,45 @@ func parserOutcomes(ps *parseStats) map[string]map[string]int64 {
 // Component.Compare/Equal accept.
 func checkCompPair(col *collector, phase int64, n, i, j int, oa, ob ocomp) {
 	w := phase<<60 | int64(i)*int64(n) + int64(j)
-	a, b := realComp(oa, 0), realComp(ob, 1)
-	oc, where := oCmpComp(oa, ob)
 	rp := func() any { return map[string]any{"kind": "comp-pair", "a": oname{oa}.JSON(), "b": oname{ob}.JSON()} }
+	compLaws(col, w, realComp(oa, 0), realComp(ob, 1), oa, ob, "", rp)
+}
+
+// compLaws evaluates the component-level laws on two REAL operands (which may share storage);
+// sfx is appended to every key so that an aliasing-only failure names its root cause.
+func compLaws(col *collector, w int64, a, b enc.Component, oa, ob ocomp, sfx string, rp func() any) {
+	oc, where := oCmpComp(oa, ob)
 	desc := fmt.Sprintf("a=%s b=%s", oa, ob)
 	c1, c2 := sign(a.Compare(b)), sign(b.Compare(a))
 	c1p, c2p := sign(a.Compare(&b)), sign(b.Compare(&a))
 	if c1 != c1p || c2 != c2p {
-		col.note("C14.total", "Component.Compare(*Component) differs from Compare(Component)", w, func() (string, any) {
+		col.note("C14.total", "Component.Compare(*Component) differs from Compare(Component)"+sfx, w, func() (string, any) {
 			return fmt.Sprintf("%s: %d/%d vs %d/%d", desc, c1, c2, c1p, c2p), rp()
 		})
 	}
 	if c1 != -c2 {
-		col.note("C14.total", "Compare is not antisymmetric (decided by "+where+")", w, func() (string, any) {
+		col.note("C14.total", "Compare is not antisymmetric (decided by "+where+")"+sfx, w, func() (string, any) {
 			return fmt.Sprintf("components %s: Compare(a,b)=%d Compare(b,a)=%d", desc, c1, c2), rp()
 		})
 	}
 	if c1 != oc {
-		col.note("C14.canon", "Compare disagrees with NDN canonical order (pair decided by "+where+")", w, func() (string, any) {
+		col.note("C14.canon", "Compare disagrees with NDN canonical order (pair decided by "+where+")"+sfx, w, func() (string, any) {
 			return fmt.Sprintf("components %s: Compare(a,b)=%d, canonical order says %d", desc, c1, oc), rp()
 		})
 	}
 	e1, e2, e1p := a.Equal(b), b.Equal(a), a.Equal(&b)
 	if e1 != e2 || e1 != e1p || e1 != (oc == 0) || e1 != (c1 == 0) {
-		col.note("C14.eq", "Component.Equal disagrees with identity / Compare==0 / its pointer form", w, func() (string, any) {
+		col.note("C14.eq", "Component.Equal disagrees with identity / Compare==0 / its pointer form"+sfx, w, func() (string, any) {
 			return fmt.Sprintf("components %s: Equal=%v/%v/%v identical=%v Compare=%d", desc, e1, e2, e1p, oc == 0, c1), rp()
 		})
 	}
 	if e1 != bytesEq(a.Bytes(), b.Bytes()) {
-		col.note("C14.eq", "Component.Equal disagrees with equality of Bytes()", w, func() (string, any) {
+		col.note("C14.eq", "Component.Equal disagrees with equality of Bytes()"+sfx, w, func() (string, any) {
 			return fmt.Sprintf("components %s: Equal=%v", desc, e1), rp()
 		})
 	}
 	if oc == 0 && a.Hash() != b.Hash() {
-		col.note("C14.hash", "equal components hash differently", w, func() (string, any) {
+		col.note("C14.hash", "equal components hash differently"+sfx, w, func() (string, any) {
 			return fmt.Sprintf("components %s: %#x vs %#x", desc, a.Hash(), b.Hash()), rp()
 		})
 	}
